@@ -289,6 +289,49 @@ def region_sweep(ctx):
                 ctx.fail('plain script (region sweep): number of statements', text, observed=got, required=want)
 
 
+LONG_REGIONS = [("'", "'"), ('"', '"'), ('`', '`'), ('$$', '$$'), ('$body$', '$body$'), ('/*', '*/'), ('/*+ ', '*/'), ('-- ', '\n'), ('--+ ', '\n'), ('# ', '\r\n'), ('(', ')'),
+                ("N'", "'"), ("E'a''", "'")]
+
+
+def long_region_text(op, cl, size, form):
+    body = ('x; ' * (size // 3 + 1))[:size]
+    r = op + body + cl
+    if form == 0:
+        return ('select 1 ' + r + '; select 2', 2) if op[0] in '-/#' else ('select ' + r + ' x from t; select 2', 2)
+    return ('select 1; ' + r + 'select 2; select 3', 3) if op[0] in '-/#' else ('select 1; select f(' + r + ', 1) from t; select 3', 3)
+
+
+def long_region_sweep(ctx):
+    """the property has no bound on the length of a region: every region kind with a body just over 2^12 … 2^17 (thorough: … 2^21) characters, full of
+    semicolons — a match window, a chunked read or a 'guard against quadratic rescans' that cuts a long literal or comment shows only here"""
+    sizes = [(1 << k) + 3 * k + 1 for k in ((12, 14, 15, 16, 17) if ctx.quick() else (12, 13, 14, 15, 16, 17, 18, 19, 20))]
+    nfail = 0
+    for op, cl in LONG_REGIONS:
+        for size in sizes:
+            if op == '(' and size > 40000:      # a parenthesis is not one token: grouping ~90 000 tokens takes seconds per case
+                continue
+            for form in (0, 1):
+                text, want = long_region_text(op, cl, size, form)
+                ctx.evaluations += 1
+                ctx.count('long_region')
+                try:
+                    got = [len(sqlparse.split(text))]
+                    if got == [want]:           # split first: when a region is cut, parse() of the ~size/2 fragments would take seconds for nothing
+                        got.append(len(sqlparse.parse(text)))
+                except Exception as e:
+                    got = 'raised ' + type(e).__name__
+                if got != [want, want]:
+                    ctx.fail('plain script (long region): number of statements', {'long_region': [op, cl, size, form]}, observed=got, required=want)
+                    nfail += 1
+                    if nfail >= 3:
+                        return
+                    break
+                ctx.nontrivial.add(('long_region', op, size, form))
+            else:
+                continue
+            break
+
+
 # --- second pass ---------------------------------------------------------------------------------------------------------------------------
 # words that may stand directly before a string literal (a lexer rule that reads the word together with the quote must know the literal's escapes)
 QUOTE_PREFIXES = ['N', 'n', 'E', 'e', 'B', 'b', 'X', 'x', 'U&', '_utf8', 'r', 'date ', 'DATE ', 'time ', 'timestamp ', 'TIMESTAMP  ', 'interval ', 'at time zone ', 'AT TIME ZONE ',
@@ -394,6 +437,7 @@ def run(ctx):
     affixed_word_sweep(ctx)
     tail_sweep(ctx)
     region_sweep(ctx)
+    long_region_sweep(ctx)
     second_pass_sweeps(ctx)
     paren_line_sweep(ctx)
     n = ctx.n(400, 12000)
@@ -493,6 +537,9 @@ def replay_known(ctx, k):
 
 def replay(ctx, payload):
     inp = payload['input']
+    if isinstance(inp, dict) and 'long_region' in inp:
+        text, want = long_region_text(*inp['long_region'])
+        return len(sqlparse.split(text)) != want or len(sqlparse.parse(text)) != want
     if isinstance(inp, list):
         a = [len(s) for s in oracles.flat_statements(inp[0])]
         b = [len(s) for s in oracles.flat_statements(inp[1])]
